@@ -267,7 +267,7 @@ func finish(ld *Loaded, db *SpecDB, reports []*FuncReport, groups map[string]*ob
 	}
 	// baseline and known findings
 	baseline := map[string]bool{}
-	if data, err := os.ReadFile(*flagBaseline); err == nil {
+	if data, err := os.ReadFile(*flagBaseline); err == nil && !*flagWriteBaseline {
 		var bl map[string][]string
 		if json.Unmarshal(data, &bl) == nil {
 			for _, n := range bl[prop] {
